@@ -214,6 +214,11 @@ def run(chk):
                 for tail in ("", " measure a;", " int z = 1;"):
                     corpus.append(("function main() -> void { %s%s %s;%s }" % (anns, ty, names, tail), None, None))
                     corpus.append(("class K { public constructor() -> K = default; public function m() -> void { %s%s %s;%s } }" % (anns, ty, names, tail), None, None))
+    # assignment is right-associative in every expression position (array element, member, argument, initialiser, condition)
+    for tgt in ("x", "a[0]", "p.v", "a[i = 1]"):
+        for rhs in ("y = 1", "y = z = 2", "a[1] = y = 3", "p.w = y"):
+            for ctx in ("%s = %s;", "echo(%s = %s);", "int q = (%s = %s);", "f(%s = %s, 1);", "if ((%s = %s) == 1) { }"):
+                corpus.append(("function main() -> void { " + (ctx % (tgt, rhs)) + " }", None, None))
     lines = ["parse " + hx(s.encode("latin-1")) for s, _ in cases] + ["parse " + hx(c[0].encode("latin-1")) for c in corpus]
     impl, rc, err = run_lines(harness(), lines)
     model, _, _ = driver(lines)
